@@ -4,6 +4,7 @@ package dsim
 
 import (
 	"fmt"
+	"strconv"
 	"strings"
 	"testing"
 	"time"
@@ -89,6 +90,24 @@ func genC13(r *Rng, tier string, idx int) *Plan {
 	}
 	g := &GenCfg{Keys: []string{"k1", "k2", "k3", "k4"}, NowMs: 946684800000, NoClock: true}
 	p.Init = g.SeedOps(r, r.Range(3, 9))
+	if r.Chance(0.3) {
+		// large collections (implementations switch representation or cache above some size)
+		big := func(n int, f func(i int) []string) []string {
+			var out []string
+			for i := 0; i < n; i++ {
+				out = append(out, f(i)...)
+			}
+			return out
+		}
+		n := r.Range(33, 70)
+		p.Init = append(p.Init,
+			Op{Args: []string{"DEL", "k1", "k2", "k3", "k4"}},
+			Op{Args: append([]string{"ZADD", "k1"}, big(n, func(i int) []string { return []string{strconv.Itoa(i % 7), fmt.Sprintf("m%02d", i)} })...)},
+			Op{Args: append([]string{"SADD", "k2"}, big(n, func(i int) []string { return []string{fmt.Sprintf("m%02d", i)} })...)},
+			Op{Args: append([]string{"HSET", "k3"}, big(n, func(i int) []string { return []string{fmt.Sprintf("f%02d", i), strconv.Itoa(i)} })...)},
+			Op{Args: append([]string{"RPUSH", "k4"}, big(n, func(i int) []string { return []string{fmt.Sprintf("e%02d", i)} })...)})
+		p.Knobs["big"] = 1
+	}
 	n := r.Range(4, 20)
 	if tier == "thorough" {
 		n = r.Range(4, 50)
@@ -98,6 +117,11 @@ func genC13(r *Rng, tier string, idx int) *Plan {
 		case x < 60:
 			// any generated command; the runner decides from the live command table whether it is read-only
 			a := g.Cmd(r)
+			if p.Knobs["big"] == 1 && r.Chance(0.35) {
+				cnt := strconv.Itoa(Pick(r, []int{1, 5, 10, 31, 32, 33, 100, -5, -100}))
+				a = Pick(r, [][]string{{"ZRANDMEMBER", "k1", cnt}, {"ZRANDMEMBER", "k1", cnt, "WITHSCORES"}, {"SRANDMEMBER", "k2", cnt}, {"HRANDFIELD", "k3", cnt},
+					{"ZRANGE", "k1", "0", "-1", "REV"}, {"ZREVRANK", "k1", "m05"}, {"ZRANGE", "k1", "0", "-1"}, {"LRANGE", "k4", "-100", "100"}, {"HGETALL", "k3"}, {"SMEMBERS", "k2"}, {"ZCARD", "k1"}})
+			}
 			if r.Chance(0.3) {
 				a = mutateArgs(r, a)
 			}
